@@ -85,7 +85,7 @@ def finish(pid, tier, seed, results, reg, assumed, wall, known, match_known):
                 k = match_known(known, pid, name, " ".join(nv['clauses']), None)
                 entry = {'obligation': name + '/native:' + nv['clauses'][0], 'clause': " ".join(nv['clauses']), 'unit': name, 'inputs': nv['inputs'],
                          'native': {'violated': nv['clauses'], 'observation': nv['observation']}, 'confirmed_natively': True, 'backend': 'native contract evaluation',
-                         'model': None, 'trace': None}
+                         'model': None, 'trace': None, 'pickle': nv.get('pickle')}
                 if k is not None:
                     known_hits.append((k, entry))
                 else:
